@@ -12,6 +12,8 @@ mod opzoo;
 mod prng;
 mod props;
 mod simrt;
+#[cfg(not(feature = "native"))]
+mod tsanrt;
 mod types;
 mod validator;
 mod wasmsplit;
@@ -207,7 +209,7 @@ fn main() {
                     ser::run_history(&b1, &c1, &o1, 0, &ctx)
                 })
                 .expect("serial run");
-                let knobs = types::SimKnobs { threads, steal_p: 0, log_thin: 4, strategy: types::Strategy::Random, sched_seed: 0, edge_thin: 0 };
+                let knobs = types::SimKnobs { threads, steal_p: 0, log_thin: 4, strategy: types::Strategy::Random, sched_seed: 0, edge_thin: 0, atomic_thin: 0 };
                 let (b2, c2, o2) = (g.bytes.clone(), cfg.clone(), ops.clone());
                 let o = simrt::run_sim(&knobs, None, Some(2), move || {
                     let ctx = par::Ctx { unrelated: &[], scratch: &scratch, run_tag: 0 };
